@@ -14,6 +14,14 @@ Fr = fractions.Fraction
 
 def gen(chk, mpmath, rng):
     mp = mpmath.mp
+    for kf in [k for k in chk.known if k.get("status") == "known" and "rep" in k]:
+        rep = kf["rep"]; mp.prec = rep["p"]
+        rr = mp.mpf(rep["r"][0]) / rep["r"][1]
+        got = mp.nsum(lambda k: rr ** abs(k) * (2 if k > 0 else 1), [-mp.inf, mp.inf])
+        rq_ = Fr(rep["r"][0], rep["r"][1])
+        exact = ex.add(ex.div(1, ex.sub(1, ex.Qf(rq_))), ex.div(ex.mul(2, ex.Qf(rq_)), ex.sub(1, ex.Qf(rq_))))
+        yield ex.relabs_close(got, exact, 10, rep["p"]), {"pinned": kf["key"], "key": "series/geom-both/r+s/slow", "r": str(rq_), "p": rep["p"], "what": "pinned representative"}
+        mp.prec = 53
     inf = mp.inf
     for i in range(chk.pick(220, 6000)):
         p = rng.choice([40, 53, 53, 80, 120])
@@ -70,8 +78,11 @@ def gen(chk, mpmath, rng):
                 # only the default / recommended strategies are held to full accuracy; others are documented as problem dependent
                 if which == "geom-both":
                     r = abs(r)
+                if meth == "d" and abs(r) >= Fr(7, 8):
+                    yield None; continue            # direct summation is documented for rapidly convergent series only (ratio 7/8: 2e-9 off at 53 bits)
                 if meth in ("r+s", "r+s+e", "a") or which in ("geom", "arithgeom", "altgeom") and meth in ("l", "s", "d"):
-                    yield ex.relabs_close(got, exact, 10, p), {"key": "series/%s/%s" % (which, meth), "r": str(r), "p": p, "what": "infinite series differs from its rational closed form"}
+                    slow = "/slow" if abs(r) >= Fr(7, 8) else ""
+                    yield ex.relabs_close(got, exact, 10, p), {"key": "series/%s/%s%s" % (which, meth, slow), "r": str(r), "p": p, "what": "infinite series differs from its rational closed form"}
             elif c < 0.75:
                 which = rng.choice(["wallis2", "ratio"])
                 if which == "wallis2":
